@@ -41,6 +41,47 @@ type readerEnv struct {
 	faultsOn bool
 	killed   bool
 	killAt   uint64
+	killTime time.Time
+	// blocked[u]: user u has been inside one Read (or one HTTP request)
+	// since that time; gone[u]: when its context was cancelled
+	blocked map[int]time.Time
+	gone    map[int]time.Time
+}
+
+// watchHangs is the promptness monitor: once the torrent is deleted or a
+// user's context is cancelled, a call that was blocked, or blocks
+// afterwards, must return; one that is still blocked a simulated minute
+// later hangs.
+func (e *readerEnv) watchHangs(nusers int) {
+	for !e.w.stopped && !e.rc.Failed() {
+		simrt.Sleep(5 * time.Second)
+		now := time.Now()
+		for u := 0; u < nusers; u++ {
+			since, in := e.blocked[u]
+			if !in {
+				continue
+			}
+			var why string
+			var from time.Time
+			if e.killed && !e.killTime.IsZero() {
+				why, from = "the torrent was deleted", e.killTime
+			}
+			if g, ok := e.gone[u]; ok && (from.IsZero() || g.Before(from)) {
+				why, from = "its context was cancelled", g
+			}
+			if from.IsZero() {
+				continue
+			}
+			if since.After(from) {
+				from = since
+			}
+			if now.Sub(from) > time.Minute {
+				e.rc.Fail("C02", "promptness", "hangs", "user%d is still blocked in a read %v after %s", u, now.Sub(from), why)
+				e.rc.S.Abort("a read hangs")
+				return
+			}
+		}
+	}
 }
 
 // drawSeedCfg draws an honest, unchoking seed.
@@ -123,6 +164,8 @@ func readerMain(rc *RunCtx) {
 	nusers := 1 + st.Choice(3)
 	join := &Join{n: nusers}
 	kill := withFaults && st.Bool(1, 6)
+	env.blocked, env.gone = map[int]time.Time{}, map[int]time.Time{}
+	simrt.GoNamed("hang-watchdog", func() { env.watchHangs(nusers) })
 	for u := 0; u < nusers; u++ {
 		u := u
 		kind := st.Weighted(3, 2)
@@ -147,6 +190,7 @@ func readerMain(rc *RunCtx) {
 			t.Kill(ctx)
 			cancel()
 			env.killAt = rc.Tick()
+			env.killTime = time.Now()
 		}
 		env.faultsOn = false
 		config.MemoryMark = 1 << 40
@@ -191,7 +235,7 @@ func (e *readerEnv) rawUser(u int, withFaults bool) {
 			off, length = f.Offset, f.Length
 		}
 	}
-	model := spec.Content[off : off+length]
+	model := spec.Bytes(off, length)
 	ctx, cancel := context.WithCancel(context.Background())
 	defer cancel()
 	r := e.t.NewReader(ctx, off, length)
@@ -217,8 +261,20 @@ func (e *readerEnv) rawUser(u int, withFaults bool) {
 		}
 		if op == cancelAt {
 			simrt.Fault("reader-context-cancelled")
-			cancel()
-			cancelled = true
+			if st.Bool(1, 2) {
+				// while the next read is under way
+				d := time.Duration(st.Choice(5000)) * time.Millisecond
+				simrt.GoNamed("reader-cancel", func() {
+					simrt.Sleep(d)
+					cancelled = true
+					e.gone[u] = time.Now()
+					cancel()
+				})
+			} else {
+				cancel()
+				cancelled = true
+				e.gone[u] = time.Now()
+			}
 		}
 		if !final && st.Bool(1, 4) {
 			// seek
@@ -269,7 +325,9 @@ func (e *readerEnv) rawUser(u int, withFaults bool) {
 		deadline := time.Now().Add(e.liveBound(pos, length))
 		zeros := 0
 		for {
+			e.blocked[u] = time.Now()
 			n, err := r.Read(buf)
+			delete(e.blocked, u)
 			if n < 0 || n > len(buf) {
 				rc.Fail("C02", "read-count", "", "Read returned n=%d for a %d-byte buffer", n, len(buf))
 				return
@@ -373,7 +431,7 @@ func (e *readerEnv) httpUser(u int, withFaults bool) {
 		f = &spec.Files[st.Choice(len(spec.Files))]
 		off, length = f.Offset, f.Length
 	}
-	model := spec.Content[off : off+length]
+	model := spec.Bytes(off, length)
 	nreq := 2 + st.Choice(3)
 	for q := 0; q < nreq; q++ {
 		if q == nreq-1 {
@@ -422,6 +480,7 @@ func (e *readerEnv) httpUser(u int, withFaults bool) {
 			simrt.GoNamed("http-cancel", func() {
 				simrt.Sleep(d)
 				cancelled = true
+				e.gone[u] = time.Now()
 				cancel()
 			})
 		}
@@ -442,7 +501,10 @@ func (e *readerEnv) httpUser(u int, withFaults bool) {
 				cancel()
 			}
 		})
+		e.blocked[u] = time.Now()
 		http.DefaultServeMux.ServeHTTP(rec, req.WithContext(ctx))
+		delete(e.blocked, u)
+		delete(e.gone, u)
 		finished = true
 		cancel()
 		if stalled {
